@@ -319,7 +319,10 @@ func (session *BaseInSession) handleRtcpPacket(b []byte, rAddr *net.UDPAddr) err
 			session.mu.Unlock()
 			if rrBuf != nil {
 				if rAddr != nil {
-					_ = session.audioRtcpConn.Write2Addr(rrBuf, rAddr)
+					// 注意，对端可能只对其中一个track做了SETUP，另一个track的rtcp连接不存在
+					if session.audioRtcpConn != nil {
+						_ = session.audioRtcpConn.Write2Addr(rrBuf, rAddr)
+					}
 				} else {
 					_ = session.cmdSession.WriteInterleavedPacket(rrBuf, session.audioRtcpChannel)
 				}
@@ -331,7 +334,10 @@ func (session *BaseInSession) handleRtcpPacket(b []byte, rAddr *net.UDPAddr) err
 			session.mu.Unlock()
 			if rrBuf != nil {
 				if rAddr != nil {
-					_ = session.videoRtcpConn.Write2Addr(rrBuf, rAddr)
+					// 注意，对端可能只对其中一个track做了SETUP，另一个track的rtcp连接不存在
+					if session.videoRtcpConn != nil {
+						_ = session.videoRtcpConn.Write2Addr(rrBuf, rAddr)
+					}
 				} else {
 					_ = session.cmdSession.WriteInterleavedPacket(rrBuf, session.videoRtcpChannel)
 				}
